@@ -37,6 +37,7 @@ class EnvBaseStub:
     reset(td) = `_reset` output merged into the input td, plus done/terminated of the done-spec shape."""
 
     batch_locked = False
+    training = True  # torchrl's EnvBase is an nn.Module (default training mode)
 
     def __init__(self, *, device="cpu", batch_size=None, run_type_checks=False, allow_done_after_reset=False, **kw):
         self.device = device
